@@ -59,8 +59,12 @@ def _judge_string(rep, c, work):
 def run(rep):
     quick = rep.tier == "quick"
     rng = random.Random(rep.seed)
-    rep.rule = ("S->I: every configuration TLC enumerates (focus slot x subset of its four keys x grammar RREL yes/no "
-                "= 128; thorough: 2^9 key subsets x 2^4 RREL slot sets = 8192), four reference slots observed in each; "
+    rep.rule = ("S->I: every configuration TLC enumerates (focus slot x how its attribute is assigned [once without / "
+                "with RREL, twice plain-then-RREL / RREL-then-plain] x subset of its four keys x which of these "
+                "providers are falsy callables x an earlier registration of all other keys or none = 2592, i.e. the 128 "
+                "configurations of the property in every variant; thorough: 2^9 key subsets x 2^4 RREL slot sets = "
+                "8192); each configuration is a sequence of three registrations on one metamodel (earlier keys, the "
+                "keys under test, nothing), four reference slots observed after each; "
                 "RREL strings: 12 expressions (3 with +m:, a main model importing a second file) x 3 places x 17 names "
                 "(local, nested, imported, unknown) x single/list, each on a fresh metamodel as the first load after "
                 "registration. Non-trivial: >= 2 registered keys or "
@@ -73,25 +77,29 @@ def run(rep):
         "(same targets, or the same error class, message and position)",
     ]
     devs = {f["id"]: f["deviation"] for f in common.open_findings(PID)}
-    r, cases, strings = _cases("focused" if quick else "full")
+    mode = "focused" if quick else "full"
+    r, cases, strings = _cases(mode)
     rep.add_mc("MC_LoaderProvider", r, ["ASSUME Precedence(Rules, Attrs)", "ASSUME Registered(string) = GrammarRrel(expr)",
                                         "(configuration and expected provider emission)"])
-    if len(cases) != (128 if quick else 8192):
-        raise tlc.MachineryError(f"expected 128/8192 configurations, TLC emitted {len(cases)}")
+    if len(cases) != (2592 if quick else 8192):
+        raise tlc.MachineryError(f"expected 2592/8192 configurations, TLC emitted {len(cases)}")
+
+    def ckey(c):
+        return common.canon([c["focus"], c["occ"], sorted(c["keys"]), sorted(c["falsy"]), sorted(c["prev"])])
+
     dcases = {}
     for fid, d in devs.items():
-        _, dc, ds = _cases("focused" if quick else "full", d)
-        dcases[fid] = ({common.canon([c["focus"], sorted(c["keys"]), sorted(c["rrel"])]): c for c in dc},
-                       {s["expr"]: s for s in ds})
-    for c in sorted(cases, key=lambda c: common.canon([c["focus"], sorted(c["keys"]), sorted(c["rrel"])])):
-        keys, rrel = sorted(c["keys"]), sorted(c["rrel"])
-        obs = P.run_config(keys, rrel)
-        k = common.canon([c["focus"], keys, rrel])
-        common.judge(rep, dict(kind="config", focus=c["focus"], keys=keys, rrel=rrel), obs, c["expected"],
-                     {fid: t[0][k]["expected"] for fid, t in dcases.items()},
-                     nontrivial=len(keys) >= 2 or bool(rrel),
-                     why=f"keys {keys}, grammar RREL on {rrel}: references were resolved by {obs}, "
-                         f"LoaderProvider.Provider selects {c['expected']}")
+        _, dc, ds = _cases(mode, d)
+        dcases[fid] = {ckey(c): c for c in dc}
+    for c in sorted(cases, key=ckey):
+        keys, falsy, prev = sorted(c["keys"]), sorted(c["falsy"]), sorted(c["prev"])
+        obs = P.run_config(c["occ"], prev, keys, falsy)
+        k = ckey(c)
+        common.judge(rep, dict(kind="config", focus=c["focus"], occ=c["occ"], keys=keys, falsy=falsy, prev=prev),
+                     obs, c["expected"], {fid: t[k]["expected"] for fid, t in dcases.items()},
+                     nontrivial=len(keys) >= 2 or any(any(o) for o in c["occ"].values()),
+                     why=f"assignments {c['occ']}, registrations {prev} then {keys} (falsy callables: {falsy}) then "
+                         f"none: references were resolved by {obs}, LoaderProvider selects {c['expected']}")
     work = tlc.scratch("vt-c32-")
     try:
         for c in _string_triples(strings, quick, rng):
@@ -110,8 +118,8 @@ def replay(path):
     c = rec["case"]
     case, expected = c.get("case", c), c.get("expected")
     if case["kind"] == "config":
-        obs = P.run_config(case["keys"], case["rrel"])
-        print("keys", case["keys"], "grammar RREL on", case["rrel"])
+        obs = P.run_config(case["occ"], case["prev"], case["keys"], case["falsy"])
+        print("assignments", case["occ"], "registrations", case["prev"], "then", case["keys"], "falsy", case["falsy"])
         print("observed:", obs)
         print("expected:", expected)
         return 0 if common.canon(obs) == common.canon(expected) else 1
